@@ -98,7 +98,14 @@ pub fn run(tape: &mut Tape, props: Props, thorough: bool, trace_on: bool) -> Out
     let h = node.sockets.add(sock);
     let desc = format!("dns dual-stack={} v6={} servers={:?}", dual, v6, servers);
     let mut c = C { tape, props, node, view, now: 1_000_000, stats: Stats::default(), hash: LogHash::new(), trace: vec![], trace_on, events: 0, v, servers: servers[..1].to_vec(), h, qs: vec![], pending_rx: vec![] };
-    let r = body(&mut c, thorough);
+    let mut r = body(&mut c, thorough);
+    // "no response content can make processing panic or loop" is part of C19 itself
+    if let Err(v) = &mut r {
+        if v.prop == "C03" && c.props.has("C19") && !c.props.has("C03") {
+            v.prop = "C19";
+            v.sig = format!("C19.{}", v.sig);
+        }
+    }
     let nontrivial = c.stats.get("dns.responses-sent") >= 2 && c.stats.get("dns.queries-started") >= 1;
     c.stats.add("sim.seconds", (c.now / 1_000_000) as u64);
     Outcome { viol: r.err(), stats: c.stats, hash: c.hash, nontrivial, trace: c.trace, sim_us: c.now, events: c.events, cfg_desc: desc }
@@ -316,9 +323,36 @@ fn respond(c: &mut C, qi: usize, server: IpAddr, victim: IpAddr, mdns: bool) -> 
             d.flags = 0x0100; // not a response
             matching = false;
         }
+        13 => {
+            // a final CNAME record whose RDATA is a malformed name: a label short by one or more octets,
+            // a lone pointer octet, an empty name, a pointer to a cut label at the very end of the message
+            let rd: Vec<u8> = match c.tape.draw(7) {
+                0 => vec![3, b'a', b'b'],
+                1 => vec![5, b'a'],
+                2 => vec![0xc0],
+                3 => vec![],
+                4 => vec![63],
+                5 => vec![0xc0, 0xff, 3, b'a', b'b'], // patched below to point at the "3"
+                _ => vec![1],
+            };
+            if rd.len() == 5 {
+                raw_edit = Some(2);
+            }
+            let owner = if c.tape.draw(2) == 0 { name.clone() } else { chain_name.clone() };
+            d.answers.push(DnsRr { name: owner, rtype: T_CNAME, class: 1, ttl: 60, rdata: rd, target: None });
+            c.stats.inc("dns.response-malformed-cname-rdata");
+        }
         _ => {}
     }
     let mut b = enc_dns(&d, c.tape.draw(2) == 0);
+    if raw_edit == Some(2) {
+        // the pointer in the last RDATA points at the cut label that ends the message
+        let at = b.len() - 5;
+        let target = b.len() - 3;
+        b[at] = 0xc0 | (target >> 8) as u8;
+        b[at + 1] = target as u8;
+        raw_edit = None;
+    }
     match raw_edit {
         Some(0) => {
             let cut = c.tape.draw(b.len() as u64) as usize;
